@@ -900,7 +900,7 @@ class VerilogAsynchronousAssignment(ast.AST):
     def toVerilog(self):
         str = ''
         
-        str += Python2VerilogTranspiler.toVerilog(self.left) + '<='
+        str += Python2VerilogTranspiler.toVerilog(self.left) + '='   # put() takes effect at once: blocking assignment
         str += Python2VerilogTranspiler.toVerilog(self.right) + ';\n'
         return str
         
